@@ -1,0 +1,121 @@
+//go:build verif
+
+package fasthttp
+
+import (
+	"bufio"
+	"net"
+	"sync/atomic"
+	"time"
+)
+
+// This file is only compiled with the "verif" build tag. It exposes hook
+// points and read-only accessors for the runtime-monitoring harness in /verif.
+// It adds no behaviour to the library.
+
+var verifHook atomic.Pointer[func(string)]
+
+// VerifSetPointHook installs f to be called at every verifPoint; nil removes it.
+func VerifSetPointHook(f func(name string)) {
+	if f == nil {
+		verifHook.Store(nil)
+		return
+	}
+	verifHook.Store(&f)
+}
+
+func verifPoint(name string) {
+	if p := verifHook.Load(); p != nil {
+		(*p)(name)
+	}
+}
+
+// VerifWorkerPool gives the harness access to the unexported worker pool.
+type VerifWorkerPool struct{ wp *workerPool }
+
+// VerifNewWorkerPool builds a worker pool the way Server.Serve does.
+func VerifNewWorkerPool(fn ServeHandler, maxWorkers int, maxIdle time.Duration, connState func(net.Conn, ConnState)) *VerifWorkerPool {
+	if connState == nil {
+		connState = func(net.Conn, ConnState) {}
+	}
+	return &VerifWorkerPool{wp: &workerPool{
+		WorkerFunc:            fn,
+		MaxWorkersCount:       maxWorkers,
+		MaxIdleWorkerDuration: maxIdle,
+		Logger:                defaultLogger,
+		connState:             connState,
+	}}
+}
+
+func (p *VerifWorkerPool) Start()                { p.wp.Start() }
+func (p *VerifWorkerPool) Stop()                 { p.wp.Stop() }
+func (p *VerifWorkerPool) Serve(c net.Conn) bool { return p.wp.Serve(c) }
+
+// Counts returns (workersCount, len(ready), mustStop) under the pool's own lock.
+func (p *VerifWorkerPool) Counts() (workers, ready int, mustStop bool) {
+	p.wp.lock.Lock()
+	defer p.wp.lock.Unlock()
+	return p.wp.workersCount, len(p.wp.ready), p.wp.mustStop
+}
+
+// VerifErrHijacked is the sentinel a ServeHandler returns for a hijacked connection.
+func VerifErrHijacked() error { return errHijacked }
+
+// VerifPerIPCounts returns a copy of the per-IP connection counters.
+func VerifPerIPCounts(s *Server) map[uint32]int {
+	s.perIPConnCounter.lock.Lock()
+	defer s.perIPConnCounter.lock.Unlock()
+	m := make(map[uint32]int, len(s.perIPConnCounter.m))
+	for k, v := range s.perIPConnCounter.m {
+		m[k] = v
+	}
+	return m
+}
+
+// VerifLBClientState is a snapshot of one balanced client.
+type VerifLBClientState struct {
+	Client  BalancingClient
+	Pending int // as reported by the wrapped client
+	Penalty uint32
+	Total   uint64
+}
+
+// VerifLBState snapshots the LBClient's per-client state under its lock.
+func VerifLBState(cc *LBClient) []VerifLBClientState {
+	cc.once.Do(cc.init)
+	cc.mu.RLock()
+	defer cc.mu.RUnlock()
+	out := make([]VerifLBClientState, 0, len(cc.cs))
+	for _, c := range cc.cs {
+		out = append(out, VerifLBClientState{
+			Client:  c.c,
+			Pending: c.c.PendingRequests(),
+			Penalty: atomic.LoadUint32(&c.penalty),
+			Total:   atomic.LoadUint64(&c.total),
+		})
+	}
+	return out
+}
+
+// VerifHostClientState returns (connsCount, idle conns, queued waiters) under connsLock.
+func VerifHostClientState(c *HostClient) (connsCount, idle, waiters int) {
+	c.connsLock.Lock()
+	defer c.connsLock.Unlock()
+	if c.connsWait != nil {
+		waiters = c.connsWait.len()
+	}
+	return c.connsCount, len(c.conns), waiters
+}
+
+// VerifClientConn returns the net.Conn behind a *clientConn.
+func VerifClientConn(cc *clientConn) net.Conn { return cc.c }
+
+// VerifParseUintBuf exposes the internal buffer integer parser (value, consumed, error).
+func VerifParseUintBuf(b []byte) (int, int, error) { return parseUintBuf(b) }
+
+// VerifMaxHexIntChars is the platform limit on hex chunk-size digits.
+func VerifMaxHexIntChars() int { return maxHexIntChars }
+
+// VerifReadHexInt and VerifWriteHexInt expose the chunk-size codecs.
+func VerifReadHexInt(r *bufio.Reader) (int, error)  { return readHexInt(r) }
+func VerifWriteHexInt(w *bufio.Writer, n int) error { return writeHexInt(w, n) }
